@@ -197,6 +197,12 @@ def main(tier):
             confs.append({"model": m, "text": render(m, rnd), "realmnames": [r["name"] for r in m["realms"]]})
         vlib.write_ndjson(os.path.join(wd, "confs.ndjson"), confs)
         trace = os.path.join(wd, "trace.ndjson")
+        # ---- the resolution rule against MIT Kerberos' krb5_get_host_realm on the same configurations (validates RealmResolve, not gokrb5)
+        import mitcross
+        mh = mitcross.mit_hostrealm_cross(wd, 150 if not run.thorough else 1500)
+        run.extra["realmresolve_vs_mit"] = {k: v for k, v in mh.items() if k != "first"}
+        if mh.get("disagreements"):
+            raise vlib.Inconclusive("RealmResolve and MIT's krb5_get_host_realm disagree on %d resolutions: %s" % (mh["disagreements"], mh["first"]))
         vlib.run_harness(["c16", "-out", trace, "-hosts", os.path.join(wd, "hosts.ndjson"), "-subsets", os.path.join(wd, "subsets.ndjson"),
                           "-confs", os.path.join(wd, "confs.ndjson")], timeout=3000)
         lines = vlib.read_ndjson(trace)
